@@ -108,9 +108,11 @@ type vexUnfixed struct {
 	Vector       string
 	ZeroScore    bool
 	OCI          bool
+	NoPurl       bool // the component product has no purl helper: it is reported under its product id
 }
 type vexDoc struct {
 	ID, Status, SelfLink, Desc string
+	OldSelfLink                string // non-empty: an earlier reference of category "self" (the last one counts)
 	Issued                     time.Time
 	Refs                       []string
 	Repos                      []vexRepo
@@ -121,7 +123,7 @@ type vexDoc struct {
 }
 
 var vexCPEs = []string{"cpe:/a:redhat:enterprise_linux:8::appstream", "cpe:/o:redhat:enterprise_linux:8::baseos", "cpe:/a:redhat:rhel_eus:8.6::appstream",
-	"cpe:/a:redhat:enterprise_linux:9::crb", "cpe:/o:redhat:enterprise_linux:7", "cpe:/a:redhat:rhel_e4s:9.0::appstream", "cpe:/a:redhat:openshift:4.1*::el8", "cpe:/a:redhat:openshift:4.?::el9"}
+	"cpe:/a:redhat:enterprise_linux:9::crb", "cpe:/o:redhat:enterprise_linux:7", "cpe:/a:redhat:rhel_e4s:9.0::appstream", "cpe:/a:redhat:openshift:4.1*::el8", "cpe:/a:redhat:openshift:4.??::el9"}
 var vexRepoIDs = []string{"AppStream-8.10.0.Z.MAIN.EUS", "BaseOS-8.10.0.Z.MAIN.EUS", "AppStream-8.6.0.Z.EUS", "CRB-9.4.0.Z.MAIN.EUS", "red_hat_enterprise_linux_7", "AppStream-9.0.0.Z.E4S", "8Base-RHOSE-4.12", "9Base-RHOSE-4.14"}
 var vexVectors = []string{"CVSS:3.1/AV:N/AC:H/PR:L/UI:N/S:U/C:H/I:H/A:H", "CVSS:3.1/AV:N/AC:L/PR:N/UI:N/S:U/C:N/I:N/A:H", "CVSS:3.0/AV:L/AC:L/PR:L/UI:N/S:U/C:L/I:N/A:N"}
 var vexImpacts = []string{"Low", "Moderate", "Important", "Critical", "", "", "None", "important", "LOW", "Severe"}
@@ -133,6 +135,9 @@ func (g *gen) vexDoc(n int) vexDoc {
 		d.Status = "deleted"
 	}
 	d.SelfLink = "https://access.redhat.com/security/data/csaf/v2/vex/2024/" + strings.ToLower(d.ID) + ".json"
+	if g.r.Chance(1, 6) {
+		d.OldSelfLink = "https://access.redhat.com/security/data/csaf/v2/vex/2023/" + strings.ToLower(d.ID) + ".json"
+	}
 	for i, m := 0, g.r.Intn(3); i < m; i++ {
 		d.Refs = append(d.Refs, genURL(g))
 	}
@@ -218,12 +223,29 @@ func (g *gen) vexDoc(n int) vexDoc {
 		}
 		seenF[key], seenF[key2] = true, true
 		d.Fixed = append(d.Fixed, f)
+		if !f.OCI && f.Module >= 0 && g.r.Chance(1, 4) {
+			// the same build also shipped outside the module, in the same repository: a second, module-less package
+			t := f
+			t.Module = -1
+			if k := fmt.Sprint(t.Repo, t.Module, t.Name); !seenF[k] {
+				seenF[k] = true
+				d.Fixed = append(d.Fixed, t)
+			}
+		}
 	}
 	seenU := map[string]bool{}
+	noPurl := map[string]bool{} // per component name: a component product is declared once
 	for i, m := 0, g.r.Intn(5); i < m; i++ {
 		u := vexUnfixed{Repo: g.r.Intn(len(d.Repos)), Module: mod(), Name: g.pkg(), Impact: g.r.Pick(vexImpacts...)}
 		if g.r.Chance(1, 8) {
 			u.OCI, u.Module, u.Name = true, -1, g.r.Pick(vexImages...)
+		} else if g.r.Chance(1, 5) {
+			u.NoPurl = true
+		}
+		if v, ok := noPurl[u.Name]; ok {
+			u.NoPurl = v && !u.OCI
+		} else {
+			noPurl[u.Name] = u.NoPurl
 		}
 		switch g.r.Intn(6) {
 		case 0:
@@ -257,6 +279,9 @@ func imageID(name string) string { return strings.ReplaceAll(name, "/", "_") }
 // decoded builds the document a ground truth stands for.
 func (d vexDoc) decoded() cDoc {
 	c := cDoc{ID: d.ID, Status: d.Status, DocRefs: [][2]string{{"self", d.SelfLink}, {"external", "https://example.com/other"}}}
+	if d.OldSelfLink != "" {
+		c.DocRefs = append([][2]string{{"self", d.OldSelfLink}}, c.DocRefs...)
+	}
 	var repoBr, compBr []*cBranch
 	for _, r := range d.Repos {
 		repoBr = append(repoBr, &cBranch{Category: "product_name", Name: r.ID, Product: &cProduct{ID: r.ID, CPE: sp(r.CPE)}})
@@ -357,6 +382,10 @@ func (d vexDoc) decoded() cDoc {
 			cid = imageID(u.Name)
 			purl = "pkg:oci/" + u.Name[strings.Index(u.Name, "/")+1:] + "?repository_url=registry.redhat.io/" + u.Name
 		}
+		if u.NoPurl && !declared[cid] {
+			declared[cid] = true
+			compBr = append(compBr, &cBranch{Category: "product_version", Name: cid, Product: &cProduct{ID: cid}})
+		}
 		declare(cid, purl)
 		pid := par + ":" + cid
 		rel(pid, cid, par)
@@ -419,7 +448,23 @@ func (g *gen) alter(c *cDoc) string {
 	pick := prods[g.r.Intn(len(prods))]
 	v := &c.Vulns[0]
 	all := append(append([]string{}, v.Status["fixed"]...), v.Status["known_affected"]...)
-	switch g.r.Intn(16) {
+	switch g.r.Intn(17) {
+	case 16:
+		// one product id of a fixed component is moved into an impact threat of its own
+		if fx := v.Status["fixed"]; len(fx) > 1 {
+			p := fx[len(fx)-1]
+			for i := range v.Threats {
+				var keep []string
+				for _, x := range v.Threats[i].Products {
+					if x != p || v.Threats[i].Category != "impact" {
+						keep = append(keep, x)
+					}
+				}
+				v.Threats[i].Products = keep
+			}
+			v.Threats = append(v.Threats, cThreat{"impact", g.r.Pick("Low", "Critical"), []string{p}})
+			return "one arch with an impact of its own"
+		}
 	case 0:
 		pick.Product = nil
 		return "a branch lost its product"
